@@ -56,6 +56,12 @@ func (g grpcClientProtocol) extractProtocolRequestHeaders(_ *operation, headers 
 
 func (g grpcClientProtocol) addProtocolResponseHeaders(meta responseMeta, headers http.Header) int {
 	statusCode := grpcAddResponseMeta("application/grpc+", meta, headers)
+	if meta.end != nil {
+		// Trailers-only response: the status, message and details are all in
+		// the headers. Declaring the status keys as trailers as well would
+		// make the server send them a second time, without the details.
+		return statusCode
+	}
 	if len(meta.pendingTrailers) > 0 {
 		if meta.pendingTrailerKeys == nil {
 			meta.pendingTrailerKeys = make(headerKeys, len(meta.pendingTrailers))
